@@ -35,6 +35,7 @@ type history struct {
 	SyncEvery int64 `json:"syncevery"`
 	Ops       []op  `json:"ops"`
 	Crash     bool  `json:"crash"` // enumerate crash points
+	NoLevelB  bool  `json:"nolevelb"` // do not record level-B detail (long histories: it is large)
 }
 
 // payload of message id with length n. Laid out so that, with 8-byte cells
@@ -492,7 +493,7 @@ func TestDQ(t *testing.T) {
 				recs[i-base] = &recorder{events: []map[string]interface{}{{"ev": "skipped"}}}
 				continue
 			}
-			recs[i-base] = record(hs[i], filepath.Join(work, "rec"), lvlB)
+			recs[i-base] = record(hs[i], filepath.Join(work, "rec"), lvlB && !hs[i].NoLevelB)
 			for _, ev := range recs[i-base].events {
 				if ev["ev"] == "hang" {
 					nhung++
